@@ -158,6 +158,7 @@ pub struct Env {
 	methods: jsonrpsee::server::Methods,
 	guard: jsonrpsee::server::ConnectionGuard,
 	next_conn: Arc<std::sync::atomic::AtomicU32>,
+	next_http: std::sync::atomic::AtomicUsize,
 }
 
 #[derive(Debug)]
@@ -208,6 +209,7 @@ impl Env {
 			methods,
 			guard: jsonrpsee::server::ConnectionGuard::new(1000),
 			next_conn: Default::default(),
+			next_http: Default::default(),
 		}
 	}
 
@@ -225,7 +227,11 @@ impl Env {
 		let frames: Vec<Result<http_body::Frame<Bytes>, std::convert::Infallible>> =
 			chunks.into_iter().map(|c| Ok(http_body::Frame::data(Bytes::from(c)))).collect();
 		let body = http_body_util::StreamBody::new(futures_util::stream::iter(frames));
-		let mut b = http::Request::builder().method(method).uri("/");
+		// what the answer must not depend on rotates from request to request: protocol version, path, query
+		let seq = self.next_http.fetch_add(1, Ordering::SeqCst);
+		let version = [http::Version::HTTP_11, http::Version::HTTP_10, http::Version::HTTP_2, http::Version::HTTP_11, http::Version::HTTP_3][seq % 5];
+		let uri = ["/", "/rpc", "/a/b?x=1", "/", "/?jsonrpc=2.0&id=1", "//", "/%7B%7D"][seq % 7];
+		let mut b = http::Request::builder().method(method).uri(uri).version(version);
 		for (k, v) in headers {
 			b = b.header(k.as_str(), http::HeaderValue::from_bytes(v).unwrap());
 		}
